@@ -19,6 +19,23 @@ let take_str = function
     go n [] rest
   | [] -> failwith "short"
 
+let z_of_int i = if i = 0 then Z0 else if i > 0 then Zpos (pos_of_int i) else Zneg (pos_of_int (- i))
+
+(* n strings *)
+let rec take_strs n l = if n = 0 then ([], l) else let (s, r) = take_str l in let (ss, r') = take_strs (n - 1) r in (s :: ss, r')
+
+(* POS: nlines, the lines, then tokens: opening-code [args] line col isblock *)
+let rec pos_tokens = function
+  | [] -> []
+  | code :: rest ->
+    let (o, rest') = (match code with
+      | 0 -> let (cs, r) = take_str rest in (OChars cs, r)
+      | 1 -> (ODigit, rest) | 2 -> (ONonBlank, rest) | 3 -> (OAny, rest) | 4 -> (OLineStart, rest)
+      | _ -> let (cs, r) = take_str rest in (OAfterSpaces cs, r)) in
+    (match rest' with
+     | l :: c :: b :: r -> (((o, z_of_int l), z_of_int c), b = 1) :: pos_tokens r
+     | _ -> failwith "bad pos token")
+
 let cls_of_int = function 0 -> CCont | 1 -> CLeaf | 2 -> CInl | _ -> CSpecial
 
 (* WF: tokens, each: shape(0 start,1 end,2 atom) class ref namelen cps... *)
@@ -42,6 +59,13 @@ let () =
         (try
           (match cmd with
            | "WF" -> if stream_ok (wf_tokens args) then "1" else "0"
+           | "POS" ->
+             (match args with
+              | n :: rest ->
+                let (lines, rest') = take_strs n rest in
+                let toks = pos_tokens rest' in
+                String.concat "" (List.map (fun b -> if b then "1" else "0") (doc_pos_ok lines toks)) ^ " " ^ (if doc_monotone toks then "1" else "0")
+              | [] -> "ERR empty")
            | _ -> "ERR unknown command")
         with e -> "ERR " ^ Printexc.to_string e) in
       print_string out; print_newline ()
